@@ -347,6 +347,8 @@ def run(ctx):
             if not ok:
                 c, h, r = texts[hh]
                 k = L.classify_gcc(first, err, c, r.get("prog"))
+                if k.startswith("gcc:") and "src" in r and (L.exo_bound_names(r["src"]) & L.C_KEYWORDS):
+                    k = KEY_F11       # gcc's message for a keyword used as identifier varies
                 gcc_fail.setdefault(k, []).append((r, first, err, c, h))
     ctx.extra["t_gcc_s"] = round(time.time() - t2, 1)
     gcc_timeouts = ctx.counts.get("gcc:timeout(not checked)", 0)
@@ -362,8 +364,6 @@ def run(ctx):
     for k, lst in sorted(gcc_fail.items()):
         r, first, err, c, h = lst[0]
         key = k
-        if k.startswith("gcc:") and "src" in r and (L.exo_bound_names(r["src"]) & L.C_KEYWORDS):
-            key = KEY_F11
         ctx.count("gcc-fail:" + key, len(lst))
         ctx.violation(
             key,
